@@ -151,6 +151,9 @@ class Sim:
         self._in_gc = False
         self._in_inv = False
         self._plan = []
+        self._held = {}
+        self.p_slowstart = c.get('p_slowstart', 0.0)
+        self.p_starve = c.get('p_starve', 0.0)
 
     # ---------------------------------------------------------------- logging (no rng, no clock)
     def log(self, *a):
@@ -365,10 +368,44 @@ class Sim:
                 self._plan[0] = (t, rem - 1)
                 return t
             self._plan.pop(0)
+        # starvation episodes (any strategy): a thread that could go on is held back for K scheduling points while others run - as
+        # long as somebody else can run. This is what a loaded machine does to a thread between an unlocked test and the wait
+        # that follows it, or to a thread that has just been created; memoryless switching practically never holds one thread
+        # back for that long. Several threads can be held at once (a new thread at birth, another one later).
+        held = self._held
+        if held:
+            free = [x for x in rs if held.get(x, 0) <= 0]
+            if free:
+                for x in rs:
+                    if held.get(x, 0) > 0:
+                        held[x] -= 1
+                        if held[x] <= 0:
+                            del held[x]
+            else:
+                held.clear()  # everybody who can run is being held: the holds end
+                free = rs
+        else:
+            free = rs
+        if self.p_starve and me.state == 'runnable' and me not in held and self.choose(2, p0=1.0 - self.p_starve):
+            held[me] = (20, 100, 400)[self.choose(3)]
+            self.count('starvation_episode')
+            free = [x for x in free if x is not me]
+            if not free:
+                # everybody else who could run is being held: their holds end here (hand-over: A was held back while B ran, now
+                # B is held back while A runs)
+                for x in list(held):
+                    if x is not me:
+                        del held[x]
+                free = [x for x in rs if x is not me]
+        rs = free
+        n = len(rs)
+        if n == 1:
+            return rs[0]
+        me_free = me.state == 'runnable' and me not in held
         strat = self.strategy
         if strat == 'pct':
             return self._pick_pct(me, rs)
-        if me.state == 'runnable':
+        if me_free:
             order = [me] + [t for t in rs if t is not me]
             if strat == 'weighted':
                 # stay with probability 1-p_switch*, else weighted draw among all runnable
@@ -506,6 +543,10 @@ class Sim:
         elif self.strategy == 'pct':
             t.prio = 1.0 + self.choose(1000) + t.idx * 1e-6
         self.threads.append(t)
+        if self.p_slowstart and t.idx > 0 and self.choose(2, p0=1.0 - self.p_slowstart):
+            # a new thread that does not get the CPU for a long while after its creation
+            self._held[t] = (100, 400, 1500)[self.choose(3)]
+            self.count('slow_start_thread')
         kwargs = kwargs or {}
         parent = _BY_IDENT.get(_real_get_ident())
         if parent is not None:
